@@ -133,7 +133,7 @@ impl<'l> ArmInstr<'l>
 			"BGT" => Instruction::B{cond: Condition::Greater, off: 0},
 			"BHI" => Instruction::B{cond: Condition::Higher, off: 0},
 			"BHS" => Instruction::B{cond: Condition::CarrySet, off: 0},
-			"BIC" => Instruction::Bic{dst: Register::R0, rhs: Register::R0},
+			"BIC" | "BICS" => Instruction::Bic{dst: Register::R0, rhs: Register::R0},
 			"BKPT" => Instruction::Bkpt{info: 0},
 			"BL" => Instruction::Bl{off: 0},
 			"BLE" => Instruction::B{cond: Condition::LessEqual, off: 0},
